@@ -55,11 +55,15 @@ Definition cls_str (c : cls) : string :=
   match c with COk => "ok" | CRejected => "rejected" | CHang => "hang" end.
 
 (* DeliverTx: state kept only on success; error returns and panics are both reverted
-   (baseapp cache-wrap + recover) *)
+   (baseapp cache-wrap + recover), except the process-level variable [pg]. (A panic
+   after a hook wrote [pg] is not modelled: no modelled path panics there.) *)
 Definition deliver {A} (m : M A) (s : State) : State * cls * string :=
   match m s with
   | Ok _ s' => (s', COk, "")
-  | Err e _ => (s, CRejected, e)
+  (* the store is reverted; the process-level variable is not part of the store *)
+  | Err e s' => (mkState (did s) (nodes s) (pledges s) (debts s) (pool s) (round s) (faults s) (fault_idx s) (fishing s)
+                         (nparams s) (orders s) (order_count s) (shards s) (shard_count s) (metas s) (models s) (expdata s)
+                         (timeouts s) (expshards s) (workers s) (bal s) (supply s) (vals s) (dels s) (pg s'), CRejected, e)
   | Panic e => (s, CRejected, "panic: " +:+ e)
   | Hang => (s, CHang, "")
   end.
